@@ -83,6 +83,12 @@ Enumerate(after, limit) ==
   /\ reply' = EnumReply(after, limit)
   /\ UNCHANGED <<present, size, caps>>
 
+(* StreamBlobs: every present blob exactly once, in an unspecified order (the projection sorts). *)
+StreamReply == R("stream", "ok", 0, StatOf(present, size, Blobs))
+Stream ==
+  /\ reply' = StreamReply
+  /\ UNCHANGED <<present, size, caps>>
+
 RemoveReply(S) == IF caps.canRemove THEN R("remove", "ok", 0, <<>>) ELSE R("remove", "refused", 0, <<>>)
 RemoveBlobs(S) ==
   /\ present' = (IF caps.canRemove THEN present \ S ELSE present)
@@ -93,6 +99,7 @@ Next == \/ \E b \in Blobs : Receive(b) \/ Fetch(b)
         \/ \E b \in Blobs, off \in 0..6, len \in 0..6 : SubFetch(b, off, len)
         \/ \E S \in SUBSET Blobs : Stat(S) \/ (S # {} /\ RemoveBlobs(S))
         \/ \E a \in 0..MaxCursor, l \in 1..MaxLimit : Enumerate(a, l)
+        \/ Stream
 
 Spec == Init /\ [][Next]_vars
 
